@@ -56,12 +56,9 @@ CLAIMS = {
         "note": 'Frame-equality part only, on the chain forms (synchronous enqueue). The plain async method (a 4-deep coroutine nest: no verdict after 25 min of symbolic execution even without arguments) is compared with the same expected frame natively only (selftest), which is not a solver verdict: a change that affects only the plain form is missed (seeds C12-B, C12-C). The quantifier over traits is replaced by a fixed corpus, so a macro change that only affects shapes outside the corpus is missed. Known findings: chain forms ignore parameter renames, send None as null, drop `more`.',
     },
     "C13": {
-        "text": "Bounded model checking of the real IDL parser per grammar production against reference recognisers written from the Varlink grammar: interface_name, field_name, type_name and "
-                "whitespace/comment productions on 4-6 arbitrary ASCII bytes (consumed length = longest grammatical match, accepted iff grammatical, never panics); type / typedef / method / "
-                "error productions on a corpus of base texts with one arbitrary byte at every position (accept/reject, consumed length and top-level constructor equal the reference).",
-        "design_ref": "DESIGN.md section 3 (C13)",
-        "note": "Per production, not whole-interface; texts of the mutation family are corpus texts with one symbolic byte (all 128 ASCII values) at a concrete position. Member order across kinds and "
-                "layout independence of whole interfaces are not claimed.",
+        "text": "Bounded model checking of the real IDL parser per grammar production against reference recognisers written from the Varlink grammar: the interface_name, field_name, type_name and whitespace/comment productions on 4-6 arbitrary ASCII bytes (consumed length = longest grammatical match, accepted iff grammatical, never panics) and the type production on inputs starting with ')' (the historical slice panic).",
+        "design_ref": "DESIGN.md section 3 (C13), 12.3, 12.10 and 13.1",
+        "note": "Name and whitespace productions only. The type / typedef / method / error productions are NOT decided by the solver: on arbitrary bytes they exceed memory at 3 bytes, and the mutation family (corpus text with one arbitrary byte) never produced a verdict (DESIGN 12.10); its bodies run in the native selftest only, which is not a solver verdict. Changes confined to those productions are missed (seeds C13-A, C13-B, C13-D). Member order across kinds and layout independence of whole interfaces are not claimed.",
     },
     "C17": {
         "text": "Bounded model checking on the small-constant build: inbound, the real read_from_socket fed a frame of symbolic size 1..=MAX+2*STEP (or never terminated) in fixed chunkings is accepted "
